@@ -353,6 +353,7 @@ def r2_candidates(ctx):
 
 
 def r3_diagnostics(ctx, prog):
+    from mirlib import backward_slice
     r = Rule("C05.R3", "plural diagnostics are guarded by the right tests",
              "ConflictingPluralRuleType must fire exactly when a form's rule type differs, PluralsAtNormalKey when the merged key "
              "displaces another, UnusedForm for forms the locale never selects", floor=4)
@@ -407,13 +408,39 @@ def r3_diagnostics(ctx, prog):
                 r.inst("check_forms#" + k, "forms written but never selected by the locale's rules (zero, few of {zero, one, few} vs {one, other}) are reported as UnusedForm, with the plural's own rule type")
         else:
             r.viol("R3:check_forms#unused", "with forms {zero, one, few} and selectable categories {one, other} check_forms returns %s and reports %s (expected UnusedForm for zero and few)" % (v if isinstance(v, str) else absint.fmt(v), [(a, absint.fmt(b) if b else b) for a, b, _c in got]), file=fn.file, line=fn.line)
-    fn = ctx.ast.fn(PP, "get_plural_rules", impl_self="Plurals")
-    if fn is not None:
-        t = flatp(show(fn.body))
-        if not has(t, "PluralRules::try_new&locale.into,self.rule_type.into") or not has(t, "locale.name.parse::<icu_locid::Locale>"):
-            r.viol("R3:Plurals::get_plural_rules", "parse-time plural rules are not built from (this locale, this key's rule type)", file=fn.file, line=fn.line)
+    # parse-time rules are those of (this locale's name parsed as an ICU locale, this plural's own rule type): the arguments of the one
+    # PluralRules::try_new call, followed back through the MIR (conversions, bindings and error plumbing do not matter)
+    gb = prog.body("plurals::Plurals::get_plural_rules")
+    if gb is None:
+        r.missing("Plurals::get_plural_rules")
+    else:
+        from mirlib import op_place
+        fam_ = prog.family(gb)
+        ctor = [(bb_, i_) for bb_ in fam_ for i_ in M.call_blocks(bb_, r"PluralRules::try_new$")]
+        parses = [(bb_, i_) for bb_ in fam_ for i_ in M.call_blocks(bb_, r"core::str::<impl str>::parse$|::from_str$")]
+        why_ = None
+        if len(ctor) != 1 or ctor[0][0] is not gb:
+            why_ = "%d PluralRules::try_new call(s) in the function" % len(ctor)
+        elif len(parses) != 1 or parses[0][0] is not gb:
+            why_ = "%d parse call(s) of the locale name" % len(parses)
         else:
-            r.inst("Plurals::get_plural_rules", "PluralRules::try_new(&locale, self.rule_type)")
+            ct, pt = gb.blocks[ctor[0][1]]["term"], gb.blocks[parses[0][1]]["term"]
+            full = (pt["func"].get("const") or {}).get("fn_full", "")
+            a0, a1 = op_place(ct["args"][0]), op_place(ct["args"][1])
+            pa = op_place(pt["args"][0])
+            sl0 = backward_slice(gb, a0["l"])[0] if a0 else set()
+            if "icu_locid::Locale" not in full and "Locale as" not in full:
+                why_ = "the locale name is parsed as `%s`, not as an ICU locale" % full
+            elif not (pa and M.derives_from_field(gb, prog, pa["l"], "key::Key", "name")):
+                why_ = "what is parsed is not the `name` of the locale passed in"
+            elif not (a0 and pt["dest"]["l"] in sl0):
+                why_ = "the locale given to PluralRules::try_new does not come from the parsed name"
+            elif not (a1 and (M.derives_from_field(gb, prog, a1["l"], "plurals::Plurals", "rule_type"))):
+                why_ = "the rule type given to PluralRules::try_new is not this plural's own `rule_type`"
+        if why_:
+            r.viol("R3:Plurals::get_plural_rules", "parse-time plural rules are not built from (this locale, this key's rule type): " + why_, file=gb.file, line=gb.line)
+        else:
+            r.inst("Plurals::get_plural_rules", "PluralRules::try_new(<locale.name parsed as icu Locale>, <self.rule_type>) - arguments followed back through the MIR")
     return r
 
 
